@@ -1,5 +1,6 @@
 import MtailVerif.Proofs.Buckets
 import MtailVerif.Generated.VM
+import MtailVerif.Proofs.Skeletons
 /-! # C21 — Histograms count every observation in exactly one bucket -/
 namespace MtailVerif.C21
 open MtailVerif.Buckets
@@ -117,5 +118,14 @@ theorem text_observation_shape :
        "strconv.Itoa(n)", "strconv.FormatInt(n, 10)", "strconv.FormatBool(n)", "strconv.ParseFloat(rxS, 64)",
        "strconv.ParseFloat(rxS, 64)", "strconv.ParseFloat(lxS, 64)", "strconv.ParseInt(lxS, 10, 32)",
        "strconv.ParseFloat(value, 64)", "strconv.ParseInt(str, base, 64)", "strconv.ParseFloat(str, 64)"] := by decide
+
+/-! ### regenerated control skeletons (written by lib/wire_skeletons.py) -/
+/-- Obligations over regenerated facts: the functions this property's model stands for have the
+    control skeleton the model was written against (`Proofs/Skeletons.lean`, one `rfl` per function
+    or clause; DESIGN.md §11.6a) -/
+theorem datum_skeletons : Skeletons.DatumShape := Skeletons.datum_shape
+theorem exec_skeletons : Skeletons.ExecShape := Skeletons.exec_shape
+theorem codegenBefore_skeletons : Skeletons.CodegenBeforeShape := Skeletons.codegenBefore_shape
+theorem codegenAfter_skeletons : Skeletons.CodegenAfterShape := Skeletons.codegenAfter_shape
 
 end MtailVerif.C21
